@@ -2412,10 +2412,9 @@ class IndicatorSumConstraint(Functional):
         """Return ``self(x)``."""
 
         if self.sum_value == 0:
-            # No relative comparison with 0 possible. The rounding error of
-            # the sum is relative to the magnitude of the entries.
-            scale = max(x.ufuncs.absolute().ufuncs.sum(), 1.0)
-            is_feasible = abs(x.ufuncs.sum()) <= self.sum_rtol * scale
+            # No relative comparison with 0 possible, the tolerance is taken
+            # as absolute
+            is_feasible = abs(x.ufuncs.sum()) <= self.sum_rtol
         else:
             is_feasible = (abs(x.ufuncs.sum() / self.sum_value - 1) <=
                            self.sum_rtol)
